@@ -144,6 +144,10 @@ pub enum Op {
     // ---- Rect pool
     RectNew { a: C, b: C },
     RectSet { slot: usize, which_max: bool, c: C },
+    /// set_min / set_max with an arbitrary (possibly invalid) corner: the call either panics
+    /// (then the Rect's life ends here: state after a panic is outside the statement) or returns
+    /// normally, and then the invariant must hold
+    RectSetRaw { slot: usize, which_max: bool, c: C },
     RectMap { slot: usize, f: u8, fail_at: Option<usize> },
     RectToPolygon { slot: usize, via: u8 },
     // ---- stateless conversions
@@ -208,6 +212,7 @@ pub fn op_name(op: &Op) -> &'static str {
         Op::Orient { .. } => "reverse rings through exterior_mut/interiors_mut",
         Op::RectNew { .. } => "Rect::new",
         Op::RectSet { .. } => "Rect::set_min/set_max",
+        Op::RectSetRaw { .. } => "Rect::set_min/set_max (arbitrary corner)",
         Op::RectMap { .. } => "Rect::(try_)map_coords_in_place",
         Op::RectToPolygon { .. } => "Rect->Polygon",
         Op::TriangleConv { .. } => "Triangle->Polygon",
@@ -634,6 +639,32 @@ impl<T: Scalar> State<T> {
                     }
                 }
             }
+            Op::RectSetRaw { slot, which_max, c } => {
+                if let Some(i) = self.rslot(*slot) {
+                    let mut r = self.rects[i];
+                    let c = co::<T>(c);
+                    let wm = *which_max;
+                    let res = std::panic::catch_unwind(std::panic::AssertUnwindSafe(|| {
+                        if wm {
+                            r.set_max(c)
+                        } else {
+                            r.set_min(c)
+                        }
+                        r
+                    }));
+                    match res {
+                        Ok(r2) => {
+                            pr.hit("rect_set_raw_returned");
+                            self.rects[i] = r2;
+                        }
+                        Err(_) => {
+                            let _ = crate::cli::take_last_panic();
+                            pr.hit("rect_set_raw_panicked");
+                            self.rects.remove(i);
+                        }
+                    }
+                }
+            }
             Op::RectMap { slot, f, fail_at } => {
                 if let Some(i) = self.rslot(*slot) {
                     let mf = map_fn::<T>(*f);
@@ -959,7 +990,13 @@ pub fn gen_op(rng: &mut Rng) -> Op {
         31 => Op::FloatOp { slot, k: rng.below(4) as u8 },
         32 => Op::Orient { slot, k: rng.below(4) as u8 },
         33 => Op::RectNew { a: gen_c(rng), b: gen_c(rng) },
-        34 => Op::RectSet { slot, which_max: rng.chance(1, 2), c: gen_c(rng) },
+        34 => {
+            if rng.chance(1, 2) {
+                Op::RectSet { slot, which_max: rng.chance(1, 2), c: gen_c(rng) }
+            } else {
+                Op::RectSetRaw { slot, which_max: rng.chance(1, 2), c: gen_c(rng) }
+            }
+        }
         35 => Op::RectMap { slot, f: rng.below(5) as u8, fail_at: if rng.chance(1, 2) { Some(rng.below(3)) } else { None } },
         36 => Op::RectToPolygon { slot, via: rng.below(2) as u8 },
         37 => match rng.below(2) {
